@@ -677,12 +677,21 @@ func (e *Engine) VerifyFunc(fn *ssa.Function, c *Contract, prop string) {
 		fr.params[fv.Name()] = v
 		if pt, ok := fv.Type().Underlying().(*types.Pointer); ok {
 			st.assume(not(eq(v.T, "0")))
+			if stableFreeVar(fn, fv) {
+				if st.stable == nil {
+					st.stable = map[string]bool{}
+				}
+				st.stable[v.T] = true
+			}
 			// distinct variables live in distinct cells
 			for _, other := range fn.FreeVars {
 				if other == fv {
 					break
 				}
-				if ov := fr.vals[other]; ov != nil && types.Identical(other.Type(), fv.Type()) {
+				if _, optr := other.Type().Underlying().(*types.Pointer); !optr {
+					continue
+				}
+				if ov := fr.vals[other]; ov != nil {
 					st.assume(not(eq(v.T, ov.T)))
 				}
 			}
